@@ -123,6 +123,7 @@ class OnlineEnsembleForecaster(EnsembleForecaster):
         y_pred_int : pd.DataFrame
             Prediction intervals
         """
+        self.check_is_fitted()
         if return_pred_int:
             raise NotImplementedError()
         y_test = check_y(y_test)
